@@ -889,4 +889,62 @@ def build : PyExpr → R Built
       | .tree s, .tree t => pure (.tree (.func2 f s t))
       | _, _ => .error .unsupported
 
+/-! ### notions used in the statements -/
+
+/-- forget the Jacobian -/
+def strip : Value → Value
+  | .ad a => .vec (vals a)
+  | v => v
+
+def Value.isAd : Value → Bool
+  | .ad _ => true
+  | _ => false
+
+/-- number, vector, matrix or AdArray (not a slicer) -/
+def Value.isData : Value → Bool
+  | .slicer _ => false
+  | .slicers _ => false
+  | _ => true
+
+/-- the values of a result as a vector (what `.val` of the AdArray returned with derivative=True holds) -/
+def valOf : Value → Option Vec
+  | .scalar c => some [c]
+  | .vec v => some v
+  | .ad a => some (vals a)
+  | _ => none
+
+/-- stored global vectors have the length of the state vector -/
+def EnvWF (e : Env) : Prop :=
+  (∀ v ∈ e.timeVals, v.length = e.N) ∧ (∀ v ∈ e.iterVals, v.length = e.N)
+
+/-- every variable leaf is taken at a previous time step or a previous iterate -/
+def OpTree.noCurrent : OpTree → Bool
+  | .leaf (.var _ _ t i) => decide (0 ≤ t) || decide (0 ≤ i)
+  | .leaf _ => true
+  | .projList _ => true
+  | .bin _ a b => a.noCurrent && b.noCurrent
+  | .func1 _ a => a.noCurrent
+  | .func2 _ a b => a.noCurrent && b.noCurrent
+
+/-- no variable leaf is at a previous iterate (so that `previous_timestep` is defined on the tree) -/
+def OpTree.noPrevIter : OpTree → Bool
+  | .leaf (.var _ _ _ i) => decide (i < 0)
+  | .leaf _ => true
+  | .projList _ => true
+  | .bin _ a b => a.noPrevIter && b.noPrevIter
+  | .func1 _ a => a.noPrevIter
+  | .func2 _ a b => a.noPrevIter && b.noPrevIter
+
+/-- private indices are `-1` (current) or a stored index -/
+def OpTree.indexOk : OpTree → Bool
+  | .leaf (.var _ _ t i) => decide (-1 ≤ t) && decide (-1 ≤ i)
+  | .leaf _ => true
+  | .projList _ => true
+  | .bin _ a b => a.indexOk && b.indexOk
+  | .func1 _ a => a.indexOk
+  | .func2 _ a b => a.indexOk && b.indexOk
+
+/-- the Jacobian rows of an AdArray -/
+def jacRows (a : Ad) : List (List Rat) := a.map (·.g)
+
 end PorepyVerif.C02
